@@ -42,9 +42,11 @@ fn next_half(
 ) -> usize {
 	let half = slice.len() / 2;
 
-	// It's not a mistake. We really need a bit-to-bit comparison of float values here
+	// Values are compared numerically: `0.0` and `-0.0` are equal and must be found in place of each other,
+	// otherwise the search can pass by a zero of the other sign and point to a wrong element.
 	// Also it is not a good idea to use `match value.partial_cmp(slice[half]): it is slower.
-	if value.to_bits() == get(slice, half).to_bits() {
+	#[allow(clippy::float_cmp)]
+	if value == *get(slice, half) {
 		padding + half
 	} else if &value > get(slice, half) {
 		f(value, get(slice, (half + 1)..), padding + half + 1)
